@@ -273,6 +273,30 @@ def keyed_gate(ctx, sw, w, label, raw, recips, inner, want, alg, sk):
                 ctx.fail('keyed-gate', 'a malformed integrity structure was accepted', {'op': 'fault', 'blob': blob.hex(), 'recipient': list(r), 'want': None, 'mutation': name})
 
 
+def long_passphrases(ctx, sw, w):
+    """RFC 4880 3.7.1.3: salt and passphrase are hashed COMPLETELY even when they are longer than the coded octet count: two passphrases
+    that differ only beyond octet 1016 (coded count 0 = 1024 octets, what `gpg --s2k-count 1024` writes) are different passphrases"""
+    base = ''.join(chr(0x61 + (i * 7) % 26) for i in range(1500))
+    for alg, halg in ([(7, 8)] if ctx.quick else [(7, 8), (9, 10), (3, 2)]):
+        if alg not in w.ciphers:
+            continue
+        recips = [('P', base, halg, 0)]
+        sk = bytes(ctx.rng.randrange(256) for _ in range(KEYLEN[alg]))
+        raw, inner, want = make_message(ctx, w, recips, alg, sk=sk)
+        label = 'long passphrase (1500 octets, coded count 0)/%d' % alg
+        o = sw.one('long-passphrase', label, 'none', raw, recips[0], inner, want)
+        if o != ('ok', want):
+            ctx.fail('long-passphrase', 'message for a 1500-octet passphrase does not decrypt with it', {'op': 'fault', 'blob': raw.hex(), 'recipient': ['P', '<1500 octets>'], 'want': want}); continue
+        for what, wrong in [('last character changed', base[:-1] + '#'), ('character 1490 changed', base[:1490] + '#' + base[1491:]), ('cut to 1400', base[:1400]),
+                            ('character 1020 changed', base[:1020] + '#' + base[1021:]), ('cut to 1017', base[:1017]), ('cut to 1016', base[:1016]),
+                            ('one character appended', base + 'x'), ('character 1010 changed', base[:1010] + '#' + base[1011:])]:
+            o2 = w.impl_decrypt(raw, ('P', wrong))
+            ctx.case('long-passphrase', (alg, what), sample={'cipher': alg, 'wrong': what})
+            if o2[0] == 'ok':
+                ctx.fail('long-passphrase', 'a wrong passphrase (%s of a 1500-octet passphrase) decrypts the message' % what,
+                         {'op': 'longpw', 'alg': alg, 'what': what, 'blob': raw.hex()})
+
+
 def mdc_boundaries(ctx, sw, w):
     """protected streams (prefix + repeat + packets) whose length is exactly a multiple of 64 KiB, one octet less and one more: whatever way
     an implementation slices the data for hashing, a flipped bit anywhere in it - the last slices in particular - must be refused"""
@@ -484,6 +508,7 @@ def run(ctx):
             keyed_gate(ctx, sw, w, label, raw, recips, inner, want, alg, sk)
             histories(ctx, sw, w, label, raw, recips, inner, want)
             wrong_secrets(ctx, sw, w, label, raw, recips, inner, want)
+        long_passphrases(ctx, sw, w)
         mdc_boundaries(ctx, sw, w)
         downgrade_witness(ctx, sw, w)
         ctx.notes.append('model exception vs implementation exception on rejected inputs: %s' %
